@@ -121,6 +121,90 @@ def constants(chk, repo):
            init, "size counts from the start of the EtherCAT frame")
 
 
+class _NullChk:
+    """runs a rule for its by-products only"""
+    def __init__(self):
+        import collections
+        self.stats = collections.defaultdict(int)
+
+    def __getattr__(self, name):
+        return lambda *a, **k: None
+
+
+def counter_key(repo, K=None):
+    """is the key under which SterilePacket.append records the expected
+    count the position of the datagram's working counter, i.e. (packet size
+    after the append) - DATAGRAM_TAIL?  The key may be spelt with the new
+    self.size or with the (start, stop) pair the base append returns; both
+    are reduced to a linear form over size-after-append and len(data)."""
+    S_ = "ebpfcat.ebpfcat.SterilePacket"
+    if K is None:
+        K = consts(repo)[2]
+    ap = repo.func(S_ + ".append")
+    if not hasattr(repo, "_c11_forms"):
+        accounting(_NullChk(), repo, "R11.2")
+    forms = repo._c11_forms
+    cn = [s for s in walk_no_nested(ap) if isinstance(s, ast.Assign)
+          and match("self.counters[$k]", s.targets[0]) is not None]
+    sup = [s for s in walk_no_nested(ap) if isinstance(
+        s, (ast.Assign, ast.Expr)) and match(
+            "super().append($*a, $**)", s.value) is not None]
+    if len(cn) != 1 or len(sup) != 1:
+        return False, f"{len(cn)} counters stores, {len(sup)} base appends"
+    if cn[0].lineno <= sup[0].lineno:
+        return False, "recorded before the base append has succeeded"
+    if unparse(cn[0].value) != "counter":
+        return False, f"records {unparse(cn[0].value)}, not the count"
+    k = match("self.counters[$k]", cn[0].targets[0])["k"]
+    # names bound to the pair the base append returns
+    pair = {}
+    if isinstance(sup[0], ast.Assign) and len(sup[0].targets) == 1:
+        t = sup[0].targets[0]
+        if isinstance(t, ast.Tuple) and len(t.elts) == 2 and \
+                forms["ret"] is not None:
+            for e, lf in zip(t.elts, forms["ret"]):
+                if isinstance(e, ast.Name):
+                    pair[e.id] = lf
+    new = forms["new"]          # size after, in terms of size0, len(data)
+
+    def rel(lf):
+        # rewrite size0 -> S1 - (new - size0)
+        out = {x: c for x, c in lf.items() if x != "size0"}
+        c0 = lf.get("size0", 0)
+        out["S1"] = out.get("S1", 0) + c0
+        for x, c in new.items():
+            if x != "size0":
+                out[x] = out.get(x, 0) - c0 * c
+        return {x: c for x, c in out.items() if c}
+
+    def kl(e):
+        if isinstance(e, ast.BinOp) and isinstance(e.op, (ast.Add, ast.Sub)):
+            a, b = kl(e.left), kl(e.right)
+            sg = 1 if isinstance(e.op, ast.Add) else -1
+            out = dict(a)
+            for x, c in b.items():
+                out[x] = out.get(x, 0) + sg * c
+            return {x: c for x, c in out.items() if c}
+        if isinstance(e, ast.Name) and e.id in pair:
+            return rel(pair[e.id])
+        if unparse(e) == "self.size":
+            return {"S1": 1}
+        v = lin(e, Evaluator(repo, ap._module, repo.cls(S_)),
+                {"self": Obj(repo.cls(S_))})
+        if set(v) - {""}:
+            raise NonLinear(unparse(e))
+        return {x: c for x, c in v.items() if c}
+    try:
+        lf = kl(k)
+    except NonLinear as e:
+        return False, f"key `{unparse(k)}` is not linear: {e}"
+    want = {"S1": 1, "": -K["DATAGRAM_TAIL"]}
+    if lf != want:
+        return False, (f"key `{unparse(k)}` is {show(lf)}, the working "
+                       f"counter is at {show(want)}")
+    return True, ""
+
+
 def accounting(chk, repo, rule):
     """also used by C12 and C18 (a rejected datagram leaves no trace)"""
     ci, ev, K = consts(repo)
@@ -216,6 +300,11 @@ def accounting(chk, repo, rule):
     chk.ob(rule, sym, "returns (old size + header, old size + header + "
            "len(data))", ok, rets[0].stmt, why + "; the slice of the frame "
            "that holds this datagram's data, its working counter follows")
+    try:
+        repo._c11_forms = {"new": new, "ret": (a, b) if isinstance(
+            rv, ast.Tuple) and len(rv.elts) == 2 else None}
+    except NameError:
+        repo._c11_forms = {"new": new, "ret": None}
     # the guards
     raises = [n for n in cfg.nodes if n.kind == "raise"]
     chk.floor(rule, "rejections in append", len(raises), 1)
@@ -487,19 +576,8 @@ def sterile(chk, repo):
     sup = find("super().append(cmd, *args, wkc=counter)", ap)
     chk.ob("R11.4", S + ".append", "the expected count is the working "
            "counter preset", len(sup) == 1, ap, "wkc=counter")
-    cn = [s for s in walk_no_nested(ap) if isinstance(s, ast.Assign)
-          and match("self.counters[$k]", s.targets[0]) is not None]
-    ok = len(cn) == 1
-    if ok:
-        k = match("self.counters[$k]", cn[0].targets[0])["k"]
-        try:
-            lf = lin(k, Evaluator(repo, ap._module, repo.cls(S)),
-                     {"self": Obj(repo.cls(S))})
-            ok = same_lin(lf, {"self.size": 1, "": -K["DATAGRAM_TAIL"]}) \
-                and unparse(cn[0].value) == "counter" and \
-                cn[0].lineno > sup[0][0].lineno
-        except NonLinear:
-            ok = False
+    ok, why = counter_key(repo, K)
     chk.ob("R11.4", S + ".append", "counter position recorded at size - "
            "tail after the append", ok, ap,
-           "the working counter is the last two bytes of the datagram")
+           why or "the working counter is the last two bytes of the "
+           "datagram")
